@@ -50,6 +50,9 @@ def build_instrumented(ctx):
     finally:
         fcntl.flock(lock, fcntl.LOCK_UN)
         lock.close()
+    if tag:
+        import shutil
+        shutil.rmtree(ovdir, ignore_errors=True)   # scratch trees: leave nothing behind in build/
     if rc != 0:
         ctx.broken.append(("go-build", "instrumented c06 harness does not build: %s" % (o + e)[-1200:]))
         return None, None
